@@ -33,6 +33,35 @@ pub fn c18_relabel() {
     kani::cover!(f == 3);
 }
 
+/// Same statement after the relabelling functions have already been used on *another* face: the
+/// answer for (face, quintant) must not depend on earlier calls (two faces, both query orders).
+#[kani::proof]
+#[kani::unwind(14)]
+pub fn c18_relabel_seq() {
+    warm();
+    let f1: usize = kani::any();
+    let q1: usize = kani::any();
+    let f2: usize = kani::any();
+    let q2: usize = kani::any();
+    kani::assume(f1 < 12 && q1 < 5 && f2 < 12 && q2 < 5);
+    let o1 = &get_origins()[f1];
+    let o2 = &get_origins()[f2];
+    // first use: face 1
+    let (s1, r1) = quintant_to_segment(q1, o1);
+    let (qq1, rr1) = segment_to_quintant(s1, o1);
+    assert!(qq1 == q1 && rr1 == r1);
+    // then face 2
+    let (s2, r2) = quintant_to_segment(q2, o2);
+    let (qq2, rr2) = segment_to_quintant(s2, o2);
+    assert!(qq2 == q2 && rr2 == r2);
+    // and face 1 again: same answers as the first time
+    let (s1b, r1b) = quintant_to_segment(q1, o1);
+    let (qq1b, rr1b) = segment_to_quintant(s1b, o1);
+    assert!(s1b == s1 && r1b == r1 && qq1b == q1 && rr1b == r1);
+    kani::cover!(f1 != f2 && q1 == q2);
+    kani::cover!(f1 == 3 && f2 == 9);
+}
+
 fn centre(q: [f64; 4]) -> [f64; 3] {
     // rotate (0,0,1) by the unit quaternion [x,y,z,w]
     let (x, y, z, w) = (q[0], q[1], q[2], q[3]);
